@@ -79,27 +79,27 @@ fn cases(bits: usize, q: u64) -> u64 {
 }
 
 pub fn register(v: &mut Vec<SubCheck>, q: u64) {
-    v.push(SubCheck::new("const_monty/U64/2^B-1", cases(64, q), cmonty_case::<C64Max, 1, 3>("const m: 2^B-1", &[3, 5, 17, 257, 641, 65537, 6700417])).tape(27));
-    v.push(SubCheck::new("const_monty/U64/p*q composite", cases(64, q), cmonty_case::<C64Pq, 1, 3>("const m: p*q composite", &[3])).tape(27));
-    v.push(SubCheck::new("const_monty/U128/2^B-1", cases(128, q), cmonty_case::<C128Max, 2, 4>("const m: 2^B-1", &[3, 5, 17, 257, 641, 65537, 6700417])).tape(30));
-    v.push(SubCheck::new("const_monty/U128/p*q composite", cases(128, q), cmonty_case::<C128Pq, 2, 4>("const m: p*q composite", &[4294967291])).tape(30));
-    v.push(SubCheck::new("const_monty/U192/2^B-1", cases(192, q), cmonty_case::<C192Max, 3, 5>("const m: 2^B-1", &[3, 5, 17, 257, 641, 65537, 6700417])).tape(33));
-    v.push(SubCheck::new("const_monty/U192/p*q composite", cases(192, q), cmonty_case::<C192Pq, 3, 5>("const m: p*q composite", &[251])).tape(33));
-    v.push(SubCheck::new("const_monty/U256/2^B-1", cases(256, q), cmonty_case::<C256Max, 4, 6>("const m: 2^B-1", &[3, 5, 17, 257, 641, 65537, 6700417])).tape(36));
-    v.push(SubCheck::new("const_monty/U256/p*q composite", cases(256, q), cmonty_case::<C256Pq, 4, 6>("const m: p*q composite", &[4294967291])).tape(36));
-    v.push(SubCheck::new("const_monty/U384/2^B-1", cases(384, q), cmonty_case::<C384Max, 6, 8>("const m: 2^B-1", &[3, 5, 17, 257, 641, 65537, 6700417])).tape(42));
-    v.push(SubCheck::new("const_monty/U384/p*q composite", cases(384, q), cmonty_case::<C384Pq, 6, 8>("const m: p*q composite", &[18446744073709551557])).tape(42));
-    v.push(SubCheck::new("const_monty/U512/2^B-1", cases(512, q), cmonty_case::<C512Max, 8, 10>("const m: 2^B-1", &[3, 5, 17, 257, 641, 65537, 6700417])).tape(48));
-    v.push(SubCheck::new("const_monty/U512/p*q composite", cases(512, q), cmonty_case::<C512Pq, 8, 10>("const m: p*q composite", &[65537])).tape(48));
-    v.push(SubCheck::new("const_monty/U1024/2^B-1", cases(1024, q), cmonty_case::<C1024Max, 16, 18>("const m: 2^B-1", &[3, 5, 17, 257, 641, 65537, 6700417])).tape(72));
-    v.push(SubCheck::new("const_monty/U1024/p*q composite", cases(1024, q), cmonty_case::<C1024Pq, 16, 18>("const m: p*q composite", &[9223372036854775783])).tape(72));
-    v.push(SubCheck::new("const_monty/U2048/2^B-1", cases(2048, q), cmonty_case::<C2048Max, 32, 35>("const m: 2^B-1", &[3, 5, 17, 257, 641, 65537, 6700417])).tape(120));
-    v.push(SubCheck::new("const_monty/U2048/p*q composite", cases(2048, q), cmonty_case::<C2048Pq, 32, 35>("const m: p*q composite", &[65537])).tape(120));
-    v.push(SubCheck::new("const_monty/U64/m=1", 40, cmonty_case::<C64One, 1, 3>("const m: m=1", &[])).tape(27));
-    v.push(SubCheck::new("const_monty/U64/prime 2^64-59", cases(64, q) / 5, cmonty_case::<C64Prime, 1, 3>("const m: prime 2^64-59", &[])).tape(27));
-    v.push(SubCheck::new("const_monty/U64/m=15015", cases(64, q), cmonty_case::<C64Small, 1, 3>("const m: m=15015", &[])).tape(27));
-    v.push(SubCheck::new("const_monty/U256/m=1", 40, cmonty_case::<C256One, 4, 6>("const m: m=1", &[])).tape(36));
-    v.push(SubCheck::new("const_monty/U256/m=9 in a wide type", 60, cmonty_case::<C256Nine, 4, 6>("const m: m=9 in a wide type", &[])).tape(36));
-    v.push(SubCheck::new("const_monty/U256/secp256k1 prime", cases(256, q) / 5, cmonty_case::<C256K1, 4, 6>("const m: secp256k1 prime", &[])).tape(36));
-    v.push(SubCheck::new("const_monty/U256/3*p^2", cases(256, q), cmonty_case::<C256Sq, 4, 6>("const m: 3*p^2", &[18446744073709551557])).tape(36));
+    v.push(SubCheck::new("const_monty/U64/2^B-1", cases(64, q), cmonty_case::<C64Max, 1, 3>("const m: 2^B-1", &[3, 5, 17, 257, 641, 65537, 6700417])).tape(70));
+    v.push(SubCheck::new("const_monty/U64/p*q composite", cases(64, q), cmonty_case::<C64Pq, 1, 3>("const m: p*q composite", &[3])).tape(70));
+    v.push(SubCheck::new("const_monty/U128/2^B-1", cases(128, q), cmonty_case::<C128Max, 2, 4>("const m: 2^B-1", &[3, 5, 17, 257, 641, 65537, 6700417])).tape(76));
+    v.push(SubCheck::new("const_monty/U128/p*q composite", cases(128, q), cmonty_case::<C128Pq, 2, 4>("const m: p*q composite", &[4294967291])).tape(76));
+    v.push(SubCheck::new("const_monty/U192/2^B-1", cases(192, q), cmonty_case::<C192Max, 3, 5>("const m: 2^B-1", &[3, 5, 17, 257, 641, 65537, 6700417])).tape(82));
+    v.push(SubCheck::new("const_monty/U192/p*q composite", cases(192, q), cmonty_case::<C192Pq, 3, 5>("const m: p*q composite", &[251])).tape(82));
+    v.push(SubCheck::new("const_monty/U256/2^B-1", cases(256, q), cmonty_case::<C256Max, 4, 6>("const m: 2^B-1", &[3, 5, 17, 257, 641, 65537, 6700417])).tape(88));
+    v.push(SubCheck::new("const_monty/U256/p*q composite", cases(256, q), cmonty_case::<C256Pq, 4, 6>("const m: p*q composite", &[4294967291])).tape(88));
+    v.push(SubCheck::new("const_monty/U384/2^B-1", cases(384, q), cmonty_case::<C384Max, 6, 8>("const m: 2^B-1", &[3, 5, 17, 257, 641, 65537, 6700417])).tape(100));
+    v.push(SubCheck::new("const_monty/U384/p*q composite", cases(384, q), cmonty_case::<C384Pq, 6, 8>("const m: p*q composite", &[18446744073709551557])).tape(100));
+    v.push(SubCheck::new("const_monty/U512/2^B-1", cases(512, q), cmonty_case::<C512Max, 8, 10>("const m: 2^B-1", &[3, 5, 17, 257, 641, 65537, 6700417])).tape(112));
+    v.push(SubCheck::new("const_monty/U512/p*q composite", cases(512, q), cmonty_case::<C512Pq, 8, 10>("const m: p*q composite", &[65537])).tape(112));
+    v.push(SubCheck::new("const_monty/U1024/2^B-1", cases(1024, q), cmonty_case::<C1024Max, 16, 18>("const m: 2^B-1", &[3, 5, 17, 257, 641, 65537, 6700417])).tape(160));
+    v.push(SubCheck::new("const_monty/U1024/p*q composite", cases(1024, q), cmonty_case::<C1024Pq, 16, 18>("const m: p*q composite", &[9223372036854775783])).tape(160));
+    v.push(SubCheck::new("const_monty/U2048/2^B-1", cases(2048, q), cmonty_case::<C2048Max, 32, 35>("const m: 2^B-1", &[3, 5, 17, 257, 641, 65537, 6700417])).tape(256));
+    v.push(SubCheck::new("const_monty/U2048/p*q composite", cases(2048, q), cmonty_case::<C2048Pq, 32, 35>("const m: p*q composite", &[65537])).tape(256));
+    v.push(SubCheck::new("const_monty/U64/m=1", 40, cmonty_case::<C64One, 1, 3>("const m: m=1", &[])).tape(70));
+    v.push(SubCheck::new("const_monty/U64/prime 2^64-59", cases(64, q) / 5, cmonty_case::<C64Prime, 1, 3>("const m: prime 2^64-59", &[])).tape(70));
+    v.push(SubCheck::new("const_monty/U64/m=15015", cases(64, q), cmonty_case::<C64Small, 1, 3>("const m: m=15015", &[])).tape(70));
+    v.push(SubCheck::new("const_monty/U256/m=1", 40, cmonty_case::<C256One, 4, 6>("const m: m=1", &[])).tape(88));
+    v.push(SubCheck::new("const_monty/U256/m=9 in a wide type", 60, cmonty_case::<C256Nine, 4, 6>("const m: m=9 in a wide type", &[])).tape(88));
+    v.push(SubCheck::new("const_monty/U256/secp256k1 prime", cases(256, q) / 5, cmonty_case::<C256K1, 4, 6>("const m: secp256k1 prime", &[])).tape(88));
+    v.push(SubCheck::new("const_monty/U256/3*p^2", cases(256, q), cmonty_case::<C256Sq, 4, 6>("const m: 3*p^2", &[18446744073709551557])).tape(88));
 }
